@@ -117,7 +117,7 @@ func TestVerifC29Bookkeeping(t *testing.T) {
 	c.Rule("synthetic blocks of 0..70 random signed transactions with ApplyData under v11 (flat commitment), v32 (Merkle), v34/v40 (+SHA-256 vector commitment), v41/Future (+SHA-512) linked to a random previous header; mutations: transaction dropped / inserted / last duplicated / two swapped / field altered / signature altered / ApplyData altered / genesis flags flipped, each of the three commitments swapped with another, zeroed, set although not enabled, or bit-flipped, Branch / Branch512 bit-flipped or taken from another header, Round +-1; ContentsMatchHeader and PreCheck are compared with the reference root, the differential rule and the link rule; distinct = (protocol, payset size bucket, mutation)")
 	c.Assume("trusted: SHA-512/256, SHA-256, SHA-512, msgpack encoding of SignedTxnInBlock / Transaction / BlockHeader")
 	cvs := []protocol.ConsensusVersion{protocol.ConsensusV11, protocol.ConsensusV32, protocol.ConsensusV34, protocol.ConsensusV40, protocol.ConsensusV41, protocol.ConsensusFuture}
-	ncases := c.N(240, 6000)
+	ncases := c.N(900, 12000)
 	for ci := 0; ci < ncases && c.Violations() < 20; ci++ {
 		r := c.Rand(29, 1, uint64(ci))
 		cv := cvs[ci%len(cvs)]
@@ -420,10 +420,10 @@ func TestVerifC29Bookkeeping(t *testing.T) {
 			c.Sample(map[string]any{"case": ci, "protocol": string(cv), "txns": n, "native": blk.TxnCommitments.NativeSha512_256Commitment.String()})
 		}
 	}
-	c.Require("honest_blocks", int64(c.N(200, 5000)))
-	c.Require("payset_mutants_rejected", int64(c.N(1000, 25000)))
-	c.Require("commitment_mutants_rejected", int64(c.N(1000, 25000)))
-	c.Require("link_mutants_rejected", int64(c.N(1000, 25000)))
+	c.Require("honest_blocks", int64(c.N(800, 11000)))
+	c.Require("payset_mutants_rejected", int64(c.N(4000, 60000)))
+	c.Require("commitment_mutants_rejected", int64(c.N(4000, 60000)))
+	c.Require("link_mutants_rejected", int64(c.N(4000, 60000)))
 	for _, k := range []string{"rejected:txn-dropped", "rejected:txn-inserted", "rejected:txns-swapped", "rejected:applydata-altered", "rejected:native<->sha256", "rejected:sha512-bitflip",
 		"rejected:branch-bitflip", "rejected:branch512-bitflip", "rejected:round+1", "rejected:round-1", "rejected:last-txn-duplicated"} {
 		c.Require(k, 10)
